@@ -10,7 +10,7 @@ Import ListNotations.
 
 Definition names_it (apropos : str -> option pmeta) (target : str) (ic : bool * str) : bool :=
   match apropos (if fst ic then snd ic ++ [slash] else snd ic) with
-  | Some m => existsb (fun e => match rel2abs e (snd ic) with
+  | Some m => existsb (fun e => match resolve_entry (fst ic) (port_name m) e (snd ic) with
                                 | Some t => str_eqb t target
                                 | None => false
                                 end) (dep_values m)
